@@ -194,7 +194,7 @@ def failure_ks(env, model, **cfg):
     from .. import smt
     import z3
     s = surf_of(dict(cfg, model=model))
-    rho = 100.0
+    rho = 60.0                 # not the default of the option: a value read before the option is set would show
     h = env.comp("ks", lambda: cls("structures.failure_ks.FailureKS")(surface=s, rho=rho))
     ins = h.inputs()
     v = np.asarray(ins["vonmises"]).reshape(-1)
@@ -202,9 +202,16 @@ def failure_ks(env, model, **cfg):
     if not env.sym:
         out = s0(h.compute(ins)["failure"])
         f = v / s["yield"] - 1
+        ok = bool(np.isfinite(out)) and f.max() - 1e-9 * abs(f.max()) <= out <= f.max() + math.log(N) / rho + 1e-9 * abs(f.max())
+        # and at stresses that lie within 1/rho of each other (where the aggregate differs visibly from the maximum): the
+        # value is the log-sum-exp with the *requested* rho
+        v2 = s["yield"] * (1 + (v / 1e12) / rho)
+        out2 = s0(h.compute(dict(vonmises=v2.reshape(np.shape(ins["vonmises"]))))["failure"])
+        f2 = v2 / s["yield"] - 1
+        ref2 = f2.max() + math.log(np.exp(rho * (f2 - f2.max())).sum()) / rho
+        ok2 = abs(out2 - ref2) <= 1e-9 * (1 + abs(ref2))
         env.holds("C15", "KS aggregation: every exponent is <= 0 with the maximal entry's exponent 0 (no overflow) and fmax <= KS <= fmax + ln(N)/rho",
-                  bool(np.isfinite(out)) and f.max() - 1e-9 * abs(f.max()) <= out <= f.max() + math.log(N) / rho + 1e-9 * abs(f.max()),
-                  "KS = %r, max = %r" % (out, f.max()))
+                  ok and ok2, "KS = %r, max = %r; clustered stresses: KS = %r, log-sum-exp with the requested rho = %r" % (out, f.max(), out2, ref2))
         return
     env.generic_position(True)
     npaths = 0
